@@ -1,8 +1,2098 @@
-//! C13 — not built yet (stub).
+//! C13 — string filters return what their documentation says, in characters, and obey their laws.
+//!
+//! Non-trivial rule (for `distinct_nontrivial`): the filter input `x` is non-empty (a non-empty
+//! string, or for the array-input cells a non-empty array); a chain counts when its input is non-empty.
+//!
+//! Workload (every worker walks all of it, executes `ctx.mine(hash)`):
+//!  * exhaustive: every string of length <= 4 (quick: <= 3 plus a seeded sample of length 4) over
+//!    {a, B, ' ', LF, TAB, ',', '<', U+00E9, U+0301, U+1F44D} as input of every C13 filter; string
+//!    arguments of length <= 2 over the same alphabet; for the two-argument replace/replace_first
+//!    inputs of length <= 3; every integer in [-6, 8] as truncate / truncatewords length and as
+//!    slice offset and slice length (quick: smaller exhaustive boxes plus seeded samples of the rest);
+//!  * random strings of <= 200 characters (ASCII, Latin-1, combining marks, emoji, ZWJ sequences,
+//!    flags, CRLF, Unicode spaces, controls) through every filter with random arguments;
+//!  * chains of 1..4 filters.
+//! Templates are parsed once per (filter, arity): `{{ x | f: y, z | vdump }}`; only {x, y, z} varies;
+//! the result is read structurally through `vdump`.
+//!
+//! Oracles:
+//!  (i) reference functions below, written from each filter's `description = "..."` / doc comment,
+//!      on character vectors. Where the documentation is silent or admits several readings the
+//!      reference returns a *set* of acceptable results, or no expectation at all (cell counted as
+//!      `cell:laws-only`). The decisions:
+//!      - upcase/downcase: per-character std mapping or whole-string std mapping (final sigma);
+//!      - capitalize: first character upper-cased (may expand, repo test pins "ß" -> "SS"), rest unchanged;
+//!      - strip/lstrip/rstrip: Unicode White_Space (`char::is_whitespace`), as the doc comments say;
+//!      - strip_newlines ("Removes any newline characters (line breaks)"): removing {LF, CR}, or
+//!        removing "\r?\n" (Shopify), or removing every Unicode line break are all accepted;
+//!      - replace/remove (+_first) with an empty search string: documentation silent, std and Ruby
+//!        agree (insert between all characters resp. at the front), that behaviour is the reference;
+//!      - split: k occurrences of a non-empty separator give k+1 pieces (the split/join law of the
+//!        statement forces that reading); the empty input may give [] or [""]; an empty separator:
+//!        only the law "array of strings whose concatenation is the input";
+//!      - first/last of the empty string: "" or nil;
+//!      - newline_to_br ("Replaces every newline (\n) with an HTML line break (<br>)" while the repo's
+//!        tests pin "<br />\n"): every LF uniformly replaced by <br>, <br/> or <br />, optionally
+//!        followed by the LF itself;
+//!      - default: nil, false, "" (and the empty array, pinned by a repo test) take the default;
+//!      - slice: characters; -len <= offset counts from the end; offset < -len: laws only
+//!        (Ruby: nothing, Python: clamp); length <= 0: error (pinned by a repo test) or "";
+//!      - truncate is documented in grapheme clusters while the repo's own unit test treats a string
+//!        of 19 clusters / 21 characters as longer than 20, so every mixture is accepted: the
+//!        decision "longer than n", the cut position and the size of the ellipsis may each be taken
+//!        in characters or in clusters (8 models; they coincide when the text has no multi-character
+//!        cluster). Bytes are never acceptable. n < 0: unchanged (pinned by a repo test) or ellipsis.
+//!      - truncatewords: exact only where "word" is unambiguous (words separated by single spaces,
+//!        no other white space, no leading/trailing space); n = 0: ellipsis alone (pinned by a repo
+//!        test) or one word (Shopify); n < 0: unchanged (pinned), or as n = 0; elsewhere only
+//!        "unchanged, or ends with the ellipsis".
+//!  (ii) laws on all inputs: split∘join identity (non-empty separator), strip = lstrip∘rstrip,
+//!      |truncate(x,n,e)| <= max(n,|e|) (n >= 0; in characters or in clusters), slice gives a
+//!      substring of at most the requested length, chain = composition of separately rendered steps.
+use crate::cfg::{parser, Config};
 use crate::ctx::Ctx;
+use crate::exec::{render, Out};
+use crate::rng::{hash_combine, hash_str, splitmix, Rng};
+use crate::val::RVal;
+use liquid::{Object, Parser, Template};
+use serde_json::{json, Value as Json};
 
-pub fn run(_ctx: &mut Ctx) {}
+// ---------------------------------------------------------------------------------------------
+// alphabet, enumeration, random text
+// ---------------------------------------------------------------------------------------------
 
-pub fn replay(_j: &serde_json::Value) -> bool {
-    false
+pub const ALPHABET: [char; 10] = ['a', 'B', ' ', '\n', '\t', ',', '<', '\u{e9}', '\u{301}', '\u{1F44D}'];
+
+/// all strings of length <= maxlen, ordered by length (index ranges: sum of |alpha|^k)
+pub fn enumerate(alpha: &[char], maxlen: usize) -> Vec<String> {
+    let mut out = vec![String::new()];
+    let mut start = 0;
+    for _ in 0..maxlen {
+        let end = out.len();
+        for i in start..end {
+            for &c in alpha {
+                let mut s = out[i].clone();
+                s.push(c);
+                out.push(s);
+            }
+        }
+        start = end;
+    }
+    out
+}
+
+/// number of strings of length <= l over an alphabet of k letters
+pub fn count_upto(k: usize, l: usize) -> usize {
+    (0..=l).map(|i| k.pow(i as u32)).sum()
+}
+
+const ASCII_PUNCT: &[&str] = &[",", ".", "<", ">", "&", "\"", "'", "%", "+", "-", "_", "/", ";", "#", "!", "=", "?", "(", "|", "{", "}", "\\", "~"];
+const SPACES: &[&str] = &[
+    " ", " ", " ", "  ", "\n", "\n", "\t", "\r\n", "\r", "\u{a0}", "\u{2003}", "\u{3000}", "\u{b}", "\u{c}", "\u{85}", "\u{2028}",
+];
+const EMOJI: &[&str] = &[
+    "\u{1F44D}",
+    "\u{1F600}",
+    "\u{2764}\u{fe0f}",
+    "\u{1F468}\u{200d}\u{1F469}\u{200d}\u{1F467}",
+    "\u{1F44D}\u{1F3FD}",
+    "\u{1F1F7}\u{1F1FA}",
+    "\u{1F3F3}\u{fe0f}\u{200d}\u{1F308}",
+    "\u{1F680}",
+    "\u{2600}",
+    "\u{a9}",
+];
+const SCRIPTS: &[&str] = &["ß", "Σ", "σ", "ς", "İ", "中", "한", "Ω", "ж", "é", "É", "ñ", "ÿ", "ŉ"];
+const WORDS: &[&str] = &["the", "Quick", "brown fox", " lorem", "IPSUM", "a b c", "x,y,,z"];
+const LONE: &[&str] = &["\u{301}", "\u{200d}", "\u{fe0f}", "\u{200b}", "\u{ad}", "\u{308}", "\u{1F3FD}", "\u{1F1FA}"];
+const CONTROLS: &[&str] = &["\0", "\u{1}", "\u{7f}", "\u{1b}", "\u{9f}"];
+
+/// the "full generator": text of at most `maxchars` characters; `extra` = domain tokens (may be empty)
+pub fn rand_text(r: &mut Rng, maxchars: usize, extra: &[&str]) -> String {
+    let target = match r.below(10) {
+        0 => r.below(4),
+        1..=4 => r.below(maxchars.min(20) + 1),
+        _ => r.below(maxchars + 1),
+    };
+    let mut s = String::new();
+    let mut n = 0usize;
+    let mut tries = 0;
+    while n < target && tries < 4 * target + 8 {
+        tries += 1;
+        let piece: String = match r.below(17) {
+            0..=4 => {
+                let k = r.below(62) as u8;
+                let c = match k {
+                    0..=25 => b'a' + k,
+                    26..=51 => b'A' + (k - 26),
+                    _ => b'0' + (k - 52),
+                };
+                (c as char).to_string()
+            }
+            5 => r.pick(ASCII_PUNCT).to_string(),
+            6 | 7 => r.pick(SPACES).to_string(),
+            8 => char::from_u32(0xA1 + r.below(0x5F) as u32).unwrap().to_string(),
+            9 => {
+                let mut p = ((b'a' + r.below(26) as u8) as char).to_string();
+                for _ in 0..1 + r.below(2) {
+                    p.push(char::from_u32(0x300 + r.below(0x70) as u32).unwrap());
+                }
+                p
+            }
+            10 => r.pick(EMOJI).to_string(),
+            11 => r.pick(SCRIPTS).to_string(),
+            12 => r.pick(WORDS).to_string(),
+            13 => r.pick(LONE).to_string(),
+            14 | 15 => {
+                if extra.is_empty() {
+                    r.pick(WORDS).to_string()
+                } else {
+                    r.pick(extra).to_string()
+                }
+            }
+            _ => r.pick(CONTROLS).to_string(),
+        };
+        let k = piece.chars().count();
+        if n + k > maxchars {
+            continue;
+        }
+        n += k;
+        s.push_str(&piece);
+    }
+    s
+}
+
+// ---------------------------------------------------------------------------------------------
+// grapheme clusters: the UAX#29 subset needed for the alphabet and the generator above
+// ---------------------------------------------------------------------------------------------
+
+#[derive(Clone, Copy, PartialEq, Eq, Debug)]
+enum Gcb {
+    Cr,
+    Lf,
+    Control,
+    Extend,
+    Zwj,
+    Ri,
+    ExtPict,
+    Other,
+}
+
+/// class of a character, `None` when this subset does not know it (then no cluster-based claim is made)
+fn gcb(c: char) -> Option<Gcb> {
+    let u = c as u32;
+    Some(match u {
+        0x0D => Gcb::Cr,
+        0x0A => Gcb::Lf,
+        0x00..=0x1F | 0x7F..=0x9F | 0xAD | 0x200B | 0x2028 | 0x2029 => Gcb::Control,
+        0xA9 | 0xAE => Gcb::ExtPict,
+        0x20..=0x7E | 0xA0..=0xFF => Gcb::Other,
+        0x100..=0x24F => Gcb::Other,
+        0x300..=0x36F | 0xFE00..=0xFE0F | 0x200C | 0x1F3FB..=0x1F3FF | 0x20D0..=0x20F0 => Gcb::Extend,
+        0x200D => Gcb::Zwj,
+        0x391..=0x3A1 | 0x3A3..=0x3C9 | 0x410..=0x44F => Gcb::Other,
+        0x2003 | 0x3000 | 0x4E00..=0x9FFF => Gcb::Other,
+        // precomposed Hangul syllables are LV/LVT: they only join with conjoining jamo, which are unknown here
+        0xAC00..=0xD7A3 => Gcb::Other,
+        0x1F1E6..=0x1F1FF => Gcb::Ri,
+        0x1F44D | 0x1F600 | 0x2764 | 0x1F468 | 0x1F469 | 0x1F467 | 0x1F466 | 0x1F680 | 0x2600 | 0x1F3F3 | 0x1F308 => {
+            Gcb::ExtPict
+        }
+        _ => return None,
+    })
+}
+
+/// byte offsets of the extended-grapheme-cluster starts of `s`, plus `s.len()`
+pub fn cluster_offsets(s: &str) -> Option<Vec<usize>> {
+    let cs: Vec<(usize, char)> = s.char_indices().collect();
+    let mut cl = Vec::with_capacity(cs.len());
+    for &(_, c) in &cs {
+        cl.push(gcb(c)?);
+    }
+    let mut out = Vec::with_capacity(cs.len() + 1);
+    for i in 0..cs.len() {
+        let brk = if i == 0 {
+            true // GB1
+        } else {
+            let (p, c) = (cl[i - 1], cl[i]);
+            if p == Gcb::Cr && c == Gcb::Lf {
+                false // GB3
+            } else if matches!(p, Gcb::Control | Gcb::Cr | Gcb::Lf) || matches!(c, Gcb::Control | Gcb::Cr | Gcb::Lf) {
+                true // GB4, GB5
+            } else if matches!(c, Gcb::Extend | Gcb::Zwj) {
+                false // GB9
+            } else if p == Gcb::Zwj && c == Gcb::ExtPict {
+                // GB11: ExtPict Extend* ZWJ x ExtPict
+                let mut j = i - 1; // the ZWJ
+                let mut joined = false;
+                while j > 0 {
+                    j -= 1;
+                    match cl[j] {
+                        Gcb::Extend => continue,
+                        Gcb::ExtPict => {
+                            joined = true;
+                            break;
+                        }
+                        _ => break,
+                    }
+                }
+                !joined
+            } else if p == Gcb::Ri && c == Gcb::Ri {
+                // GB12/13: pair regional indicators
+                let mut k = 0;
+                let mut j = i;
+                while j > 0 && cl[j - 1] == Gcb::Ri {
+                    k += 1;
+                    j -= 1;
+                }
+                k % 2 == 0
+            } else {
+                true // GB999
+            }
+        };
+        if brk {
+            out.push(cs[i].0);
+        }
+    }
+    out.push(s.len());
+    Some(out)
+}
+
+#[derive(Clone, Copy, PartialEq, Eq, Debug)]
+enum Unit {
+    Chars,
+    Clusters,
+    /// never an acceptable unit; only used to *diagnose* a mismatch as "counts bytes"
+    Bytes,
+}
+
+fn unit_offsets(s: &str, u: Unit) -> Option<Vec<usize>> {
+    match u {
+        Unit::Chars => {
+            let mut v: Vec<usize> = s.char_indices().map(|(i, _)| i).collect();
+            v.push(s.len());
+            Some(v)
+        }
+        Unit::Clusters => cluster_offsets(s),
+        Unit::Bytes => Some((0..=s.len()).collect()),
+    }
+}
+
+fn nchars(s: &str) -> usize {
+    s.chars().count()
+}
+
+// ---------------------------------------------------------------------------------------------
+// the filters of C13
+// ---------------------------------------------------------------------------------------------
+
+#[derive(Clone, Copy, PartialEq, Eq, Debug)]
+pub enum F {
+    Append,
+    Prepend,
+    Upcase,
+    Downcase,
+    Capitalize,
+    Strip,
+    Lstrip,
+    Rstrip,
+    StripNewlines,
+    Replace,
+    ReplaceFirst,
+    Remove,
+    RemoveFirst,
+    Split,
+    Join,
+    Truncate,
+    TruncateWords,
+    Slice,
+    Size,
+    First,
+    Last,
+    NewlineToBr,
+    Default,
+}
+
+pub const ALL_F: [F; 23] = [
+    F::Append,
+    F::Prepend,
+    F::Upcase,
+    F::Downcase,
+    F::Capitalize,
+    F::Strip,
+    F::Lstrip,
+    F::Rstrip,
+    F::StripNewlines,
+    F::Replace,
+    F::ReplaceFirst,
+    F::Remove,
+    F::RemoveFirst,
+    F::Split,
+    F::Join,
+    F::Truncate,
+    F::TruncateWords,
+    F::Slice,
+    F::Size,
+    F::First,
+    F::Last,
+    F::NewlineToBr,
+    F::Default,
+];
+
+impl F {
+    pub fn name(self) -> &'static str {
+        match self {
+            F::Append => "append",
+            F::Prepend => "prepend",
+            F::Upcase => "upcase",
+            F::Downcase => "downcase",
+            F::Capitalize => "capitalize",
+            F::Strip => "strip",
+            F::Lstrip => "lstrip",
+            F::Rstrip => "rstrip",
+            F::StripNewlines => "strip_newlines",
+            F::Replace => "replace",
+            F::ReplaceFirst => "replace_first",
+            F::Remove => "remove",
+            F::RemoveFirst => "remove_first",
+            F::Split => "split",
+            F::Join => "join",
+            F::Truncate => "truncate",
+            F::TruncateWords => "truncatewords",
+            F::Slice => "slice",
+            F::Size => "size",
+            F::First => "first",
+            F::Last => "last",
+            F::NewlineToBr => "newline_to_br",
+            F::Default => "default",
+        }
+    }
+    pub fn from_name(n: &str) -> Option<F> {
+        ALL_F.iter().copied().find(|f| f.name() == n)
+    }
+    fn idx(self) -> usize {
+        ALL_F.iter().position(|f| *f == self).unwrap()
+    }
+}
+
+pub fn template_src(f: F, arity: usize) -> String {
+    match arity {
+        0 => format!("{{{{ x | {} | vdump }}}}", f.name()),
+        1 => format!("{{{{ x | {}: y | vdump }}}}", f.name()),
+        _ => format!("{{{{ x | {}: y, z | vdump }}}}", f.name()),
+    }
+}
+
+const LAW_STRIP_A: &str = "{{ x | strip | vdump }}";
+const LAW_STRIP_B: &str = "{{ x | rstrip | lstrip | vdump }}";
+const LAW_SPLIT_JOIN: &str = "{{ x | split: y | join: y | vdump }}";
+
+// ---------------------------------------------------------------------------------------------
+// oracle (i): reference functions, from the documentation strings
+// ---------------------------------------------------------------------------------------------
+
+fn cv(s: &str) -> Vec<char> {
+    s.chars().collect()
+}
+fn sv(c: &[char]) -> String {
+    c.iter().collect()
+}
+fn rs(s: impl Into<String>) -> RVal {
+    RVal::Str(s.into())
+}
+
+fn matches_at(x: &[char], i: usize, pat: &[char]) -> bool {
+    i + pat.len() <= x.len() && x[i..i + pat.len()] == *pat
+}
+
+/// "Replaces the occurrences of the `search` with `replace`" — left to right, non-overlapping;
+/// `limit` = how many occurrences (1 for the `_first` variants)
+fn ref_replace(x: &str, search: &str, rep: &str, limit: usize) -> String {
+    let (x, p) = (cv(x), cv(search));
+    let mut out = String::new();
+    let mut done = 0usize;
+    let mut i = 0usize;
+    if p.is_empty() {
+        // the empty string occurs before every character and at the end
+        for c in &x {
+            if done < limit {
+                out.push_str(rep);
+                done += 1;
+            }
+            out.push(*c);
+        }
+        if done < limit {
+            out.push_str(rep);
+        }
+        return out;
+    }
+    while i < x.len() {
+        if done < limit && matches_at(&x, i, &p) {
+            out.push_str(rep);
+            done += 1;
+            i += p.len();
+        } else {
+            out.push(x[i]);
+            i += 1;
+        }
+    }
+    out
+}
+
+/// "Divides an input string into an array using the argument as a separator." (non-empty separator)
+fn ref_split(x: &str, sep: &str) -> Vec<String> {
+    let (x, p) = (cv(x), cv(sep));
+    assert!(!p.is_empty());
+    let mut out = Vec::new();
+    let mut cur = String::new();
+    let mut i = 0usize;
+    while i < x.len() {
+        if matches_at(&x, i, &p) {
+            out.push(std::mem::take(&mut cur));
+            i += p.len();
+        } else {
+            cur.push(x[i]);
+            i += 1;
+        }
+    }
+    out.push(cur);
+    out
+}
+
+fn ref_strip(x: &str, left: bool, right: bool) -> String {
+    let c = cv(x);
+    let mut a = 0usize;
+    let mut b = c.len();
+    if left {
+        while a < b && c[a].is_whitespace() {
+            a += 1;
+        }
+    }
+    if right {
+        while b > a && c[b - 1].is_whitespace() {
+            b -= 1;
+        }
+    }
+    sv(&c[a..b])
+}
+
+fn ref_strip_newlines(x: &str) -> Vec<String> {
+    let c = cv(x);
+    let a: String = c.iter().filter(|c| !matches!(c, '\n' | '\r')).collect();
+    let mut b = String::new();
+    let mut i = 0;
+    while i < c.len() {
+        if c[i] == '\n' {
+            i += 1;
+        } else if c[i] == '\r' && i + 1 < c.len() && c[i + 1] == '\n' {
+            i += 2;
+        } else {
+            b.push(c[i]);
+            i += 1;
+        }
+    }
+    let d: String = c
+        .iter()
+        .filter(|c| !matches!(c, '\n' | '\r' | '\u{b}' | '\u{c}' | '\u{85}' | '\u{2028}' | '\u{2029}'))
+        .collect();
+    vec![a, b, d]
+}
+
+fn ref_newline_to_br(x: &str) -> Vec<String> {
+    let mut out = Vec::new();
+    for br in ["<br>", "<br/>", "<br />"] {
+        for keep in [true, false] {
+            let mut s = String::new();
+            for c in x.chars() {
+                if c == '\n' {
+                    s.push_str(br);
+                    if keep {
+                        s.push('\n');
+                    }
+                } else {
+                    s.push(c);
+                }
+            }
+            out.push(s);
+        }
+    }
+    out
+}
+
+fn prefix_units(s: &str, k: usize, u: Unit) -> Option<String> {
+    let o = unit_offsets(s, u)?;
+    let k = k.min(o.len() - 1);
+    // a byte "prefix" may split a character; such a model simply explains nothing
+    s.get(..o[k]).map(|p| p.to_string())
+}
+
+/// one truncate model: decide in unit `d`, cut in unit `c`, measure the ellipsis in unit `m`
+fn truncate_model(x: &str, n: usize, e: &str, d: Unit, c: Unit, m: Unit) -> Option<String> {
+    let xd = unit_offsets(x, d)?.len() - 1;
+    if xd <= n {
+        return Some(x.to_string());
+    }
+    let em = unit_offsets(e, m)?.len() - 1;
+    let mut p = prefix_units(x, n.saturating_sub(em), c)?;
+    p.push_str(e);
+    Some(p)
+}
+
+/// every acceptable truncate result (see the header); `None` = the cluster subset does not know the text
+fn ref_truncate(x: &str, n: i64, e: &str) -> Option<Vec<String>> {
+    if n < 0 {
+        return Some(vec![x.to_string(), e.to_string()]);
+    }
+    let us = [Unit::Chars, Unit::Clusters];
+    let mut out: Vec<String> = Vec::new();
+    for d in us {
+        for c in us {
+            for m in us {
+                let r = truncate_model(x, n as usize, e, d, c, m)?;
+                if !out.contains(&r) {
+                    out.push(r);
+                }
+            }
+        }
+    }
+    Some(out)
+}
+
+fn truncate_byte_models(x: &str, n: i64, e: &str) -> Vec<String> {
+    let mut out = Vec::new();
+    if n < 0 {
+        return out;
+    }
+    for c in [Unit::Clusters, Unit::Chars, Unit::Bytes] {
+        for m in [Unit::Bytes, Unit::Chars] {
+            if let Some(r) = truncate_model(x, n as usize, e, Unit::Bytes, c, m) {
+                out.push(r);
+            }
+        }
+    }
+    for c in [Unit::Clusters, Unit::Chars] {
+        if let Some(r) = truncate_model(x, n as usize, e, Unit::Chars, c, Unit::Bytes) {
+            out.push(r);
+        }
+    }
+    out
+}
+
+/// words separated by single spaces, no other white space
+fn words_unambiguous(x: &str) -> bool {
+    !x.starts_with(' ') && !x.ends_with(' ') && !x.contains("  ") && x.chars().all(|c| c == ' ' || !c.is_whitespace())
+}
+
+fn ref_truncatewords(x: &str, n: i64, e: &str) -> Option<Vec<String>> {
+    if !words_unambiguous(x) {
+        return None;
+    }
+    if x.is_empty() {
+        // zero words: nothing to cut; for n <= 0 the ellipsis alone is accepted as well (edge of an edge)
+        return Some(if n <= 0 { vec![String::new(), e.to_string()] } else { vec![String::new()] });
+    }
+    let w = ref_split(x, " ");
+    let model = |k: usize| -> String {
+        if w.len() > k {
+            let mut s = w[..k].join(" ");
+            s.push_str(e);
+            s
+        } else {
+            x.to_string()
+        }
+    };
+    Some(if n >= 1 {
+        vec![model(n as usize)]
+    } else if n == 0 {
+        vec![model(0), model(1)]
+    } else {
+        vec![x.to_string(), model(0), model(1)]
+    })
+}
+
+/// slice in characters; `None` = offset below -len (laws only)
+fn ref_slice(x: &str, off: i64, len: i64) -> Option<String> {
+    let c = cv(x);
+    let n = c.len() as i64;
+    let start = if off >= 0 {
+        off.min(n)
+    } else if off >= -n {
+        n + off
+    } else {
+        return None;
+    };
+    let end = (start + len).min(n);
+    Some(sv(&c[start as usize..end as usize]))
+}
+
+fn slice_byte_model(x: &str, off: i64, len: i64) -> Option<String> {
+    if off >= 0 {
+        return None;
+    }
+    let start = x.len() as i64 + off;
+    if start < 0 {
+        return Some(String::new());
+    }
+    Some(x.chars().skip(start as usize).take(len.max(0) as usize).collect())
+}
+
+/// to-string of a scalar as used by join (only what the workload feeds: strings, integers)
+fn ref_to_s(v: &RVal) -> Option<String> {
+    match v {
+        RVal::Str(s) => Some(s.clone()),
+        RVal::Int(i) => Some(i.to_string()),
+        _ => None,
+    }
+}
+
+pub struct Expect {
+    /// acceptable structural results
+    pub ok: Vec<RVal>,
+    /// an error is acceptable
+    pub err_ok: bool,
+    /// false: no expectation from the reference for this cell (documentation silent) — laws only
+    pub exact: bool,
+}
+
+fn one(v: RVal) -> Expect {
+    Expect { ok: vec![v], err_ok: false, exact: true }
+}
+fn any_of(vs: Vec<String>) -> Expect {
+    let mut ok: Vec<RVal> = Vec::new();
+    for s in vs {
+        if !ok.iter().any(|o| matches!(o, RVal::Str(t) if *t == s)) {
+            ok.push(RVal::Str(s));
+        }
+    }
+    Expect { ok, err_ok: false, exact: true }
+}
+fn silent() -> Expect {
+    Expect { ok: vec![], err_ok: true, exact: false }
+}
+
+/// oracle (i)
+pub fn expect(f: F, x: &RVal, a: &[&RVal]) -> Expect {
+    use RVal::{Array, Int, Str};
+    match (f, x, a) {
+        (F::Append, Str(x), [Str(y)]) => one(rs(format!("{x}{y}"))),
+        (F::Prepend, Str(x), [Str(y)]) => one(rs(format!("{y}{x}"))),
+        (F::Upcase, Str(x), []) => {
+            any_of(vec![x.chars().flat_map(|c| c.to_uppercase()).collect(), x.to_uppercase()])
+        }
+        (F::Downcase, Str(x), []) => {
+            any_of(vec![x.chars().flat_map(|c| c.to_lowercase()).collect(), x.to_lowercase()])
+        }
+        (F::Capitalize, Str(x), []) => {
+            let c = cv(x);
+            match c.split_first() {
+                None => one(rs("")),
+                Some((h, t)) => {
+                    let mut s: String = h.to_uppercase().collect();
+                    s.extend(t.iter());
+                    one(rs(s))
+                }
+            }
+        }
+        (F::Strip, Str(x), []) => one(rs(ref_strip(x, true, true))),
+        (F::Lstrip, Str(x), []) => one(rs(ref_strip(x, true, false))),
+        (F::Rstrip, Str(x), []) => one(rs(ref_strip(x, false, true))),
+        (F::StripNewlines, Str(x), []) => any_of(ref_strip_newlines(x)),
+        (F::Replace, Str(x), [Str(s)]) => one(rs(ref_replace(x, s, "", usize::MAX))),
+        (F::Replace, Str(x), [Str(s), Str(r)]) => one(rs(ref_replace(x, s, r, usize::MAX))),
+        (F::ReplaceFirst, Str(x), [Str(s)]) => one(rs(ref_replace(x, s, "", 1))),
+        (F::ReplaceFirst, Str(x), [Str(s), Str(r)]) => one(rs(ref_replace(x, s, r, 1))),
+        (F::Remove, Str(x), [Str(s)]) => one(rs(ref_replace(x, s, "", usize::MAX))),
+        (F::RemoveFirst, Str(x), [Str(s)]) => one(rs(ref_replace(x, s, "", 1))),
+        (F::Split, Str(x), [Str(s)]) => {
+            if s.is_empty() {
+                silent()
+            } else if x.is_empty() {
+                Expect { ok: vec![Array(vec![]), Array(vec![rs("")])], err_ok: false, exact: true }
+            } else {
+                one(Array(ref_split(x, s).into_iter().map(RVal::Str).collect()))
+            }
+        }
+        (F::Join, Array(xs), [Str(s)]) => {
+            let parts: Option<Vec<String>> = xs.iter().map(ref_to_s).collect();
+            match parts {
+                Some(p) => one(rs(p.join(s))),
+                None => silent(),
+            }
+        }
+        (F::Truncate, Str(x), []) => match ref_truncate(x, 50, "...") {
+            Some(v) => any_of(v),
+            None => silent(),
+        },
+        (F::Truncate, Str(x), [Int(n)]) => match ref_truncate(x, *n, "...") {
+            Some(v) => any_of(v),
+            None => silent(),
+        },
+        (F::Truncate, Str(x), [Int(n), Str(e)]) => match ref_truncate(x, *n, e) {
+            Some(v) => any_of(v),
+            None => silent(),
+        },
+        (F::TruncateWords, Str(x), [Int(n)]) => match ref_truncatewords(x, *n, "...") {
+            Some(v) => any_of(v),
+            None => silent(),
+        },
+        (F::TruncateWords, Str(x), [Int(n), Str(e)]) => match ref_truncatewords(x, *n, e) {
+            Some(v) => any_of(v),
+            None => silent(),
+        },
+        (F::Slice, Str(x), [Int(off)]) => match ref_slice(x, *off, 1) {
+            Some(s) => one(rs(s)),
+            None => silent(),
+        },
+        (F::Slice, Str(x), [Int(off), Int(len)]) => {
+            if *len < 1 {
+                Expect { ok: vec![rs("")], err_ok: true, exact: true }
+            } else {
+                match ref_slice(x, *off, *len) {
+                    Some(s) => one(rs(s)),
+                    None => silent(),
+                }
+            }
+        }
+        (F::Size, Str(x), []) => one(Int(nchars(x) as i64)),
+        (F::Size, Array(xs), []) => one(Int(xs.len() as i64)),
+        (F::First, Str(x), []) => match x.chars().next() {
+            Some(c) => one(rs(c.to_string())),
+            None => Expect { ok: vec![rs(""), RVal::Nil], err_ok: false, exact: true },
+        },
+        (F::Last, Str(x), []) => match x.chars().last() {
+            Some(c) => one(rs(c.to_string())),
+            None => Expect { ok: vec![rs(""), RVal::Nil], err_ok: false, exact: true },
+        },
+        (F::First, Array(xs), []) => one(xs.first().cloned().unwrap_or(RVal::Nil)),
+        (F::Last, Array(xs), []) => one(xs.last().cloned().unwrap_or(RVal::Nil)),
+        (F::NewlineToBr, Str(x), []) => any_of(ref_newline_to_br(x)),
+        (F::Default, x, [y]) => {
+            let take_default = match x {
+                RVal::Nil | RVal::Bool(false) => Some(true),
+                Str(s) => Some(s.is_empty()),
+                Array(v) => Some(v.is_empty()),
+                RVal::Bool(true) | Int(_) => Some(false),
+                _ => None,
+            };
+            match take_default {
+                Some(true) => one((*y).clone()),
+                Some(false) => one(x.clone()),
+                None => silent(),
+            }
+        }
+        _ => silent(),
+    }
+}
+
+// ---------------------------------------------------------------------------------------------
+// structural read-back of a vdump string
+// ---------------------------------------------------------------------------------------------
+
+struct DumpParser<'a> {
+    s: &'a str,
+    i: usize,
+}
+
+impl<'a> DumpParser<'a> {
+    fn eat(&mut self, lit: &str) -> bool {
+        if self.s[self.i..].starts_with(lit) {
+            self.i += lit.len();
+            true
+        } else {
+            false
+        }
+    }
+    fn json_string(&mut self) -> Option<String> {
+        let b = self.s.as_bytes();
+        if b.get(self.i) != Some(&b'"') {
+            return None;
+        }
+        let mut j = self.i + 1;
+        while j < b.len() {
+            match b[j] {
+                b'\\' => j += 2,
+                b'"' => {
+                    let r: Option<String> = serde_json::from_str(&self.s[self.i..=j]).ok();
+                    self.i = j + 1;
+                    return r;
+                }
+                _ => j += 1,
+            }
+        }
+        None
+    }
+    fn val(&mut self) -> Option<RVal> {
+        if self.eat("nil") {
+            return Some(RVal::Nil);
+        }
+        if self.eat("b:true") {
+            return Some(RVal::Bool(true));
+        }
+        if self.eat("b:false") {
+            return Some(RVal::Bool(false));
+        }
+        if self.eat("state:Empty") {
+            return Some(RVal::Empty);
+        }
+        if self.eat("state:Blank") {
+            return Some(RVal::Blank);
+        }
+        if self.eat("i:") {
+            let st = self.i;
+            let b = self.s.as_bytes();
+            while self.i < b.len() && (b[self.i] == b'-' || b[self.i].is_ascii_digit()) {
+                self.i += 1;
+            }
+            return self.s[st..self.i].parse().ok().map(RVal::Int);
+        }
+        if self.eat("f:") {
+            let h = self.s.get(self.i..self.i + 16)?;
+            self.i += 16;
+            return u64::from_str_radix(h, 16).ok().map(|b| RVal::Float(f64::from_bits(b)));
+        }
+        if self.eat("s:") {
+            return self.json_string().map(RVal::Str);
+        }
+        if self.eat("[") {
+            let mut v = Vec::new();
+            if self.eat("]") {
+                return Some(RVal::Array(v));
+            }
+            loop {
+                v.push(self.val()?);
+                if self.eat("]") {
+                    return Some(RVal::Array(v));
+                }
+                if !self.eat(",") {
+                    return None;
+                }
+            }
+        }
+        if self.eat("{") {
+            let mut v = Vec::new();
+            if self.eat("}") {
+                return Some(RVal::Object(v));
+            }
+            loop {
+                let k = self.json_string()?;
+                if !self.eat(":") {
+                    return None;
+                }
+                v.push((k, self.val()?));
+                if self.eat("}") {
+                    return Some(RVal::Object(v));
+                }
+                if !self.eat(",") {
+                    return None;
+                }
+            }
+        }
+        None
+    }
+}
+
+/// inverse of `RVal::dump` for the kinds the string filters produce (dates are not needed)
+pub fn parse_dump(s: &str) -> Option<RVal> {
+    let mut p = DumpParser { s, i: 0 };
+    let v = p.val()?;
+    if p.i == s.len() {
+        Some(v)
+    } else {
+        None
+    }
+}
+
+// ---------------------------------------------------------------------------------------------
+// verdict for one filter application
+// ---------------------------------------------------------------------------------------------
+
+pub struct Finding {
+    pub key: String,
+    pub what: String,
+    pub expected: Json,
+}
+
+fn show(s: &str) -> String {
+    let t: String = s.chars().take(60).collect();
+    format!("{:?}", t)
+}
+
+/// stable defect class of a mismatch with the reference
+fn classify(f: F, x: &RVal, a: &[&RVal], dump: Option<&str>) -> String {
+    let name = f.name();
+    let Some(d) = dump else {
+        return format!("{name}:unexpected-error");
+    };
+    let obs = parse_dump(d);
+    if let RVal::Str(xs) = x {
+        match (f, a, &obs) {
+            (F::Size, [], Some(RVal::Int(n))) if *n == xs.len() as i64 && xs.len() != nchars(xs) => {
+                return "size:counts-bytes".into();
+            }
+            (F::Truncate, _, Some(RVal::Str(r))) => {
+                let (n, e) = match a {
+                    [] => (50, "..."),
+                    [RVal::Int(n)] => (*n, "..."),
+                    [RVal::Int(n), RVal::Str(e)] => (*n, e.as_str()),
+                    _ => (0, ""),
+                };
+                if truncate_byte_models(xs, n, e).iter().any(|m| m == r) {
+                    return "truncate:counts-bytes".into();
+                }
+            }
+            (F::Slice, [RVal::Int(off), rest @ ..], Some(RVal::Str(r))) => {
+                let len = match rest {
+                    [RVal::Int(l)] => *l,
+                    _ => 1,
+                };
+                if slice_byte_model(xs, *off, len).as_deref() == Some(r.as_str()) {
+                    return "slice:negative-offset-counts-bytes".into();
+                }
+            }
+            _ => {}
+        }
+    }
+    format!("{name}:differs-from-reference")
+}
+
+/// oracle (ii), the laws that are predicates over one result
+fn law_findings(f: F, x: &RVal, a: &[&RVal], dump: &str, out: &mut Vec<Finding>, laws_seen: &mut Vec<&'static str>) {
+    let RVal::Str(xs) = x else { return };
+    match (f, a) {
+        (F::Truncate, _) => {
+            let (n, e) = match a {
+                [] => (50i64, "..."),
+                [RVal::Int(n)] => (*n, "..."),
+                [RVal::Int(n), RVal::Str(e)] => (*n, e.as_str()),
+                _ => return,
+            };
+            let Some(RVal::Str(r)) = parse_dump(dump) else { return };
+            if n < 0 && r == *xs {
+                return; // not truncated (negative limit: unchanged is pinned by a repo test)
+            }
+            laws_seen.push("law:truncate-length");
+            let lim = n.max(0) as usize;
+            let ok_chars = nchars(&r) <= lim.max(nchars(e));
+            let ok_clusters = match (cluster_offsets(&r), cluster_offsets(e)) {
+                (Some(rc), Some(ec)) => Some(rc.len() - 1 <= lim.max(ec.len() - 1)),
+                _ => None,
+            };
+            if !ok_chars && ok_clusters == Some(false) {
+                out.push(Finding {
+                    key: "law:truncate-length".into(),
+                    what: format!(
+                        "truncate: {n} with ellipsis {} returned {} characters, more than max(limit, ellipsis) in characters and in clusters",
+                        show(e),
+                        nchars(&r)
+                    ),
+                    expected: json!(format!("at most max({n}, |ellipsis|) characters or grapheme clusters")),
+                });
+            }
+        }
+        (F::Slice, [RVal::Int(_), rest @ ..]) => {
+            let len = match rest {
+                [RVal::Int(l)] => *l,
+                [] => 1,
+                _ => return,
+            };
+            let Some(RVal::Str(r)) = parse_dump(dump) else { return };
+            laws_seen.push("law:slice-contiguous");
+            if !xs.contains(r.as_str()) || nchars(&r) as i64 > len.max(0) {
+                out.push(Finding {
+                    key: "law:slice-contiguous".into(),
+                    what: format!("slice returned {} which is not a contiguous piece of the input of at most {len} characters", show(&r)),
+                    expected: json!(format!("a substring of the input with at most {len} characters")),
+                });
+            }
+        }
+        (F::Split, [RVal::Str(sep)]) => {
+            // also for the empty separator: pieces of the input, in order, nothing lost
+            laws_seen.push("law:split-pieces");
+            let ok = match parse_dump(dump) {
+                Some(RVal::Array(v)) => {
+                    let parts: Option<Vec<String>> =
+                        v.iter().map(|p| if let RVal::Str(s) = p { Some(s.clone()) } else { None }).collect();
+                    matches!(parts, Some(p) if p.join(sep) == *xs)
+                }
+                _ => false,
+            };
+            if !ok {
+                out.push(Finding {
+                    key: "law:split-pieces".into(),
+                    what: "split did not return an array of strings that gives the input back when joined with the separator".into(),
+                    expected: json!("array of strings; joined with the separator = input"),
+                });
+            }
+        }
+        (F::TruncateWords, [RVal::Int(_), rest @ ..]) => {
+            let e = match rest {
+                [RVal::Str(e)] => e.as_str(),
+                [] => "...",
+                _ => return,
+            };
+            let Some(RVal::Str(r)) = parse_dump(dump) else { return };
+            laws_seen.push("law:truncatewords-shape");
+            if !(r == *xs || r.ends_with(e)) {
+                out.push(Finding {
+                    key: "law:truncatewords-shape".into(),
+                    what: "truncatewords returned neither its input nor a text ending with the ellipsis".into(),
+                    expected: json!("the input, or a text ending with the ellipsis"),
+                });
+            }
+        }
+        _ => {}
+    }
+}
+
+pub struct Verdict {
+    pub findings: Vec<Finding>,
+    pub exact: bool,
+    pub laws: Vec<&'static str>,
+}
+
+/// all monitors for one application `x | f: a..` whose monitored render gave `out`
+pub fn verdict(f: F, x: &RVal, a: &[&RVal], out: &Out) -> Verdict {
+    let mut v = Verdict { findings: Vec::new(), exact: false, laws: Vec::new() };
+    let dump: Option<&str> = match out {
+        Out::Ok(s) => Some(s.as_str()),
+        Out::Err(_) => None,
+        Out::Panic(p) => {
+            v.findings.push(Finding {
+                key: p.key(),
+                what: format!("filter {} panicked at {}: {}", f.name(), p.site(), p.msg),
+                expected: json!("no panic"),
+            });
+            return v;
+        }
+        Out::BadUtf8(_) => {
+            v.findings.push(Finding {
+                key: "non-utf8-output".into(),
+                what: format!("filter {} produced output that is not UTF-8", f.name()),
+                expected: json!("UTF-8"),
+            });
+            return v;
+        }
+    };
+    let exp = expect(f, x, a);
+    v.exact = exp.exact;
+    if exp.exact {
+        let ok = match dump {
+            Some(d) => exp.ok.iter().any(|e| e.dump() == d),
+            None => exp.err_ok,
+        };
+        if !ok {
+            let mut accepted: Vec<String> = exp.ok.iter().map(|e| format!("ok:{}", e.dump())).collect();
+            if exp.err_ok {
+                accepted.push("err".into());
+            }
+            let key = classify(f, x, a, dump);
+            v.findings.push(Finding {
+                what: format!(
+                    "{} on {} gave {} but its documentation implies {}",
+                    f.name(),
+                    show(&x.dump()),
+                    show(&out.summary()),
+                    show(&accepted.join(" | "))
+                ),
+                key,
+                expected: json!(accepted),
+            });
+        }
+    }
+    if let Some(d) = dump {
+        law_findings(f, x, a, d, &mut v.findings, &mut v.laws);
+    }
+    v
+}
+
+// ---------------------------------------------------------------------------------------------
+// execution environment
+// ---------------------------------------------------------------------------------------------
+
+pub struct Env {
+    parser: Parser,
+    tp: Vec<Option<Template>>,
+    law_strip_a: Template,
+    law_strip_b: Template,
+    law_split_join: Template,
+    n_filter: Vec<u64>,
+    n_exact: u64,
+    n_laws_only: u64,
+    n_out: [u64; 4],
+}
+
+impl Env {
+    pub fn new() -> Env {
+        let p = parser(Config::Stdlib);
+        let mut tp = Vec::new();
+        for f in ALL_F {
+            for ar in 0..3 {
+                tp.push(p.parse(&template_src(f, ar)).ok());
+            }
+        }
+        Env {
+            law_strip_a: p.parse(LAW_STRIP_A).expect("law template"),
+            law_strip_b: p.parse(LAW_STRIP_B).expect("law template"),
+            law_split_join: p.parse(LAW_SPLIT_JOIN).expect("law template"),
+            parser: p,
+            tp,
+            n_filter: vec![0; ALL_F.len()],
+            n_exact: 0,
+            n_laws_only: 0,
+            n_out: [0; 4],
+        }
+    }
+    fn template(&self, f: F, arity: usize) -> Option<&Template> {
+        self.tp[f.idx() * 3 + arity].as_ref()
+    }
+    fn flush(&mut self, ctx: &mut Ctx) {
+        for f in ALL_F {
+            let n = std::mem::take(&mut self.n_filter[f.idx()]);
+            if n > 0 {
+                ctx.add(&format!("filter:{}", f.name()), n);
+            }
+        }
+        ctx.add("cell:compared-with-reference", std::mem::take(&mut self.n_exact));
+        ctx.add("cell:laws-only", std::mem::take(&mut self.n_laws_only));
+        for (i, t) in ["ok", "err", "panic", "bad-utf8"].iter().enumerate() {
+            let n = std::mem::take(&mut self.n_out[i]);
+            if n > 0 {
+                ctx.add(&format!("outcome:{t}"), n);
+            }
+        }
+    }
+}
+
+fn data(x: &RVal, a: &[&RVal]) -> Object {
+    let mut o = Object::new();
+    o.insert("x".into(), x.to_liquid());
+    if let Some(y) = a.first() {
+        o.insert("y".into(), y.to_liquid());
+    }
+    if let Some(z) = a.get(1) {
+        o.insert("z".into(), z.to_liquid());
+    }
+    o
+}
+
+fn data_json(x: &RVal, a: &[&RVal]) -> Json {
+    let mut kv = vec![("x".to_string(), x.clone())];
+    if let Some(y) = a.first() {
+        kv.push(("y".into(), (*y).clone()));
+    }
+    if let Some(z) = a.get(1) {
+        kv.push(("z".into(), (*z).clone()));
+    }
+    RVal::Object(kv).to_json()
+}
+
+fn nontrivial(x: &RVal) -> bool {
+    match x {
+        RVal::Str(s) => !s.is_empty(),
+        RVal::Array(v) => !v.is_empty(),
+        _ => false,
+    }
+}
+
+fn out_idx(o: &Out) -> usize {
+    match o {
+        Out::Ok(_) => 0,
+        Out::Err(_) => 1,
+        Out::Panic(_) => 2,
+        Out::BadUtf8(_) => 3,
+    }
+}
+
+/// run one cell: render, record, compare with the reference, apply the predicate laws
+fn cell(ctx: &mut Ctx, env: &mut Env, f: F, x: &RVal, a: &[&RVal], h: u64, family: &'static str) {
+    let Some(t) = env.template(f, a.len()) else {
+        ctx.count("cell:template-rejected-at-parse");
+        return;
+    };
+    if ctx.evaluations % 64 == 0 {
+        ctx.set_progress(
+            &json!({"kind":"filter-eval","filter":f.name(),"template":template_src(f, a.len()),"data":data_json(x, a)}).to_string(),
+        );
+    }
+    let out = render(t, &data(x, a));
+    ctx.record(h, nontrivial(x));
+    env.n_filter[f.idx()] += 1;
+    env.n_out[out_idx(&out)] += 1;
+    let v = verdict(f, x, a, &out);
+    if v.exact {
+        env.n_exact += 1;
+    } else {
+        env.n_laws_only += 1;
+    }
+    for l in &v.laws {
+        ctx.count(l);
+    }
+    for fd in v.findings {
+        ctx.violation(&fd.key, &fd.what, || {
+            json!({"kind":"filter-eval","filter":f.name(),"template":template_src(f, a.len()),"data":data_json(x, a),
+                   "expected":fd.expected,"observed":out.summary(),"family":family})
+        });
+    }
+    ctx.sample(|| {
+        json!({"family":family,"template":template_src(f, a.len()),"x":x.dump(),
+               "args":a.iter().map(|v| v.dump()).collect::<Vec<_>>(),"observed":out.summary().chars().take(100).collect::<String>()})
+    });
+}
+
+/// law: strip == lstrip after rstrip (two renders, one case)
+fn law_strip(ctx: &mut Ctx, env: &mut Env, x: &RVal, h: u64) {
+    let d = data(x, &[]);
+    let a = render(&env.law_strip_a, &d);
+    let b = render(&env.law_strip_b, &d);
+    ctx.record(h, nontrivial(x));
+    ctx.count("law:strip-lstrip-rstrip");
+    for o in [&a, &b] {
+        if let Out::Panic(p) = o {
+            ctx.violation(&p.key(), &format!("strip law render panicked at {}: {}", p.site(), p.msg), || {
+                json!({"kind":"law-equal","template":LAW_STRIP_A,"template2":LAW_STRIP_B,"data":data_json(x, &[])})
+            });
+            return;
+        }
+    }
+    if a.summary() != b.summary() {
+        ctx.violation(
+            "law:strip-lstrip-rstrip",
+            &format!("strip gave {} but lstrip after rstrip gave {}", show(&a.summary()), show(&b.summary())),
+            || {
+                json!({"kind":"law-equal","template":LAW_STRIP_A,"template2":LAW_STRIP_B,"data":data_json(x, &[]),
+                   "expected":a.summary(),"observed":b.summary()})
+            },
+        );
+    }
+}
+
+/// law: split then join on the same non-empty separator is the identity (one render through the real join)
+fn law_split_join(ctx: &mut Ctx, env: &mut Env, x: &RVal, y: &RVal, h: u64) {
+    let out = render(&env.law_split_join, &data(x, &[y]));
+    ctx.record(h, nontrivial(x));
+    ctx.count("law:split-join");
+    let expected = format!("ok:{}", x.dump());
+    match &out {
+        Out::Panic(p) => {
+            ctx.violation(&p.key(), &format!("split|join panicked at {}: {}", p.site(), p.msg), || {
+                json!({"kind":"filter-eval","template":LAW_SPLIT_JOIN,"data":data_json(x, &[y]),"expected":[expected],"observed":out.summary()})
+            });
+        }
+        _ => {
+            if out.summary() != expected {
+                ctx.violation(
+                    "law:split-join",
+                    &format!("split then join on the same separator gave {} instead of the input", show(&out.summary())),
+                    || json!({"kind":"filter-eval","template":LAW_SPLIT_JOIN,"data":data_json(x, &[y]),"expected":[expected],"observed":out.summary()}),
+                );
+            }
+        }
+    }
+}
+
+// ---------------------------------------------------------------------------------------------
+// workload
+// ---------------------------------------------------------------------------------------------
+
+const UNARY: [F; 12] = [
+    F::Upcase,
+    F::Downcase,
+    F::Capitalize,
+    F::Strip,
+    F::Lstrip,
+    F::Rstrip,
+    F::StripNewlines,
+    F::Size,
+    F::First,
+    F::Last,
+    F::NewlineToBr,
+    F::Truncate,
+];
+const ONE_STR: [F; 8] =
+    [F::Append, F::Prepend, F::Remove, F::RemoveFirst, F::Replace, F::ReplaceFirst, F::Split, F::Default];
+
+struct Pool {
+    /// strings of length <= 4 over the alphabet, by length
+    s: Vec<RVal>,
+    h: Vec<u64>,
+    ints: Vec<RVal>,
+    ih: Vec<u64>,
+}
+
+impl Pool {
+    fn new() -> Pool {
+        let strs = enumerate(&ALPHABET, 4);
+        let h = strs.iter().map(|s| hash_str(s)).collect();
+        let ints: Vec<RVal> = (-6..=8).map(RVal::Int).collect();
+        let ih = (-6i64..=8).map(|i| splitmix(i as u64 ^ 0x1357)).collect();
+        Pool { s: strs.into_iter().map(RVal::Str).collect(), h, ints, ih }
+    }
+    /// number of strings of length <= l
+    fn upto(&self, l: usize) -> usize {
+        count_upto(ALPHABET.len(), l)
+    }
+}
+
+fn tag(f: F, arity: usize) -> u64 {
+    hash_str(&template_src(f, arity))
+}
+
+fn hc3(t: u64, a: u64, b: u64, c: u64) -> u64 {
+    hash_combine(hash_combine(t, a), hash_combine(b, c).rotate_left(7))
+}
+
+pub fn run(ctx: &mut Ctx) {
+    ctx.start_watchdog(120);
+    let mut env = Env::new();
+    let pool = Pool::new();
+    ctx.extra.insert("alphabet".into(), json!(ALPHABET.iter().map(|c| format!("U+{:04X}", *c as u32)).collect::<Vec<_>>()));
+    exhaustive_unary(ctx, &mut env, &pool);
+    exhaustive_one_string_arg(ctx, &mut env, &pool);
+    exhaustive_two_string_args(ctx, &mut env, &pool);
+    exhaustive_truncate(ctx, &mut env, &pool);
+    exhaustive_slice(ctx, &mut env, &pool);
+    array_inputs(ctx, &mut env, &pool);
+    default_inputs(ctx, &mut env, &pool);
+    random_strings(ctx, &mut env);
+    chains(ctx, &mut env, &pool);
+    env.flush(ctx);
+}
+
+/// indices of the inputs of the unary-style blocks: all of length <= 3, plus all (thorough) or a
+/// seeded sample (quick) of length 4
+fn input_indices(ctx: &Ctx, pool: &Pool, tag: &str, sample: usize) -> Vec<usize> {
+    let n3 = pool.upto(3);
+    let n4 = pool.upto(4);
+    let mut v: Vec<usize> = (0..n3).collect();
+    if ctx.quick() {
+        let mut r = ctx.rng(tag);
+        for _ in 0..sample {
+            v.push(n3 + r.below(n4 - n3));
+        }
+    } else {
+        v.extend(n3..n4);
+    }
+    v
+}
+
+fn exhaustive_unary(ctx: &mut Ctx, env: &mut Env, pool: &Pool) {
+    let xs = input_indices(ctx, pool, "c13-unary", 3000);
+    let law_tag = hash_str("law-strip");
+    for &ix in &xs {
+        for f in UNARY {
+            let h = hash_combine(tag(f, 0), pool.h[ix]);
+            if ctx.mine(h) {
+                cell(ctx, env, f, &pool.s[ix], &[], h, "exhaustive-unary");
+                ctx.count("family:exhaustive-unary");
+            }
+        }
+        let h = hash_combine(law_tag, pool.h[ix]);
+        if ctx.mine(h) {
+            law_strip(ctx, env, &pool.s[ix], h);
+            ctx.count("family:exhaustive-unary");
+        }
+    }
+}
+
+fn one_string_arg_case(ctx: &mut Ctx, env: &mut Env, pool: &Pool, tags: &[u64; 8], law_tag: u64, ix: usize, iy: usize) {
+    for (k, f) in ONE_STR.iter().enumerate() {
+        let h = hc3(tags[k], pool.h[ix], pool.h[iy], 0);
+        if ctx.mine(h) {
+            cell(ctx, env, *f, &pool.s[ix], &[&pool.s[iy]], h, "exhaustive-string-arg");
+            ctx.count("family:exhaustive-string-arg");
+        }
+    }
+    if iy != 0 {
+        let h = hc3(law_tag, pool.h[ix], pool.h[iy], 0);
+        if ctx.mine(h) {
+            law_split_join(ctx, env, &pool.s[ix], &pool.s[iy], h);
+            ctx.count("family:exhaustive-string-arg");
+        }
+    }
+}
+
+fn exhaustive_one_string_arg(ctx: &mut Ctx, env: &mut Env, pool: &Pool) {
+    let mut tags = [0u64; 8];
+    for (k, f) in ONE_STR.iter().enumerate() {
+        tags[k] = tag(*f, 1);
+    }
+    let law_tag = hash_str("law-split-join");
+    if ctx.quick() {
+        // exhaustive box (x <= 3) x (arg <= 2); seeded sample of the inputs of length 4
+        for ix in 0..pool.upto(3) {
+            for iy in 0..pool.upto(2) {
+                one_string_arg_case(ctx, env, pool, &tags, law_tag, ix, iy);
+            }
+        }
+        let mut r = ctx.rng("c13-one-arg");
+        for _ in 0..4000 {
+            let ix = pool.upto(3) + r.below(pool.upto(4) - pool.upto(3));
+            // an argument that occurs in x half of the time
+            let iy = if r.chance(1, 2) {
+                arg_inside(pool, ix, &mut r)
+            } else {
+                pool.upto(1) + r.below(pool.upto(2) - pool.upto(1))
+            };
+            one_string_arg_case(ctx, env, pool, &tags, law_tag, ix, iy);
+        }
+    } else {
+        for ix in 0..pool.upto(4) {
+            for iy in 0..pool.upto(2) {
+                one_string_arg_case(ctx, env, pool, &tags, law_tag, ix, iy);
+            }
+        }
+    }
+}
+
+/// index of a length-2 (or 1) substring of pool string ix
+fn arg_inside(pool: &Pool, ix: usize, r: &mut Rng) -> usize {
+    let RVal::Str(x) = &pool.s[ix] else { return 0 };
+    let c = cv(x);
+    if c.is_empty() {
+        return 0;
+    }
+    let l = if c.len() >= 2 && r.chance(2, 3) { 2 } else { 1 };
+    let st = r.below(c.len() - l + 1);
+    let sub: String = c[st..st + l].iter().collect();
+    (0..pool.upto(2)).find(|&i| matches!(&pool.s[i], RVal::Str(s) if *s == sub)).unwrap_or(0)
+}
+
+fn exhaustive_two_string_args(ctx: &mut Ctx, env: &mut Env, pool: &Pool) {
+    let fs = [F::Replace, F::ReplaceFirst];
+    let tags = [tag(F::Replace, 2), tag(F::ReplaceFirst, 2)];
+    let case = |ctx: &mut Ctx, env: &mut Env, ix: usize, iy: usize, iz: usize| {
+        for k in 0..2 {
+            let h = hc3(tags[k], pool.h[ix], pool.h[iy], pool.h[iz]);
+            if ctx.mine(h) {
+                cell(ctx, env, fs[k], &pool.s[ix], &[&pool.s[iy], &pool.s[iz]], h, "exhaustive-two-string-args");
+                ctx.count("family:exhaustive-two-string-args");
+            }
+        }
+    };
+    if ctx.quick() {
+        for ix in 0..pool.upto(2) {
+            for iy in 0..pool.upto(2) {
+                for iz in 0..pool.upto(1) {
+                    case(ctx, env, ix, iy, iz);
+                }
+            }
+        }
+        let mut r = ctx.rng("c13-two-args");
+        for _ in 0..20_000 {
+            let ix = 1 + r.below(pool.upto(3) - 1);
+            let iy = if r.chance(2, 3) { arg_inside(pool, ix, &mut r) } else { r.below(pool.upto(2)) };
+            let iz = r.below(pool.upto(2));
+            case(ctx, env, ix, iy, iz);
+        }
+    } else {
+        for ix in 0..pool.upto(3) {
+            for iy in 0..pool.upto(2) {
+                for iz in 0..pool.upto(2) {
+                    case(ctx, env, ix, iy, iz);
+                }
+            }
+        }
+    }
+}
+
+fn exhaustive_truncate(ctx: &mut Ctx, env: &mut Env, pool: &Pool) {
+    let fs = [F::Truncate, F::TruncateWords];
+    let t1 = [tag(F::Truncate, 1), tag(F::TruncateWords, 1)];
+    let t2 = [tag(F::Truncate, 2), tag(F::TruncateWords, 2)];
+    // length argument only
+    let xs = input_indices(ctx, pool, "c13-trunc1", 3000);
+    for &ix in &xs {
+        for ii in 0..pool.ints.len() {
+            for k in 0..2 {
+                let h = hc3(t1[k], pool.h[ix], pool.ih[ii], 0);
+                if ctx.mine(h) {
+                    cell(ctx, env, fs[k], &pool.s[ix], &[&pool.ints[ii]], h, "exhaustive-int-arg");
+                    ctx.count("family:exhaustive-int-arg");
+                }
+            }
+        }
+    }
+    // length and ellipsis
+    let case = |ctx: &mut Ctx, env: &mut Env, ix: usize, ii: usize, ie: usize| {
+        for k in 0..2 {
+            let h = hc3(t2[k], pool.h[ix], pool.ih[ii], pool.h[ie]);
+            if ctx.mine(h) {
+                cell(ctx, env, fs[k], &pool.s[ix], &[&pool.ints[ii], &pool.s[ie]], h, "exhaustive-int-and-string-arg");
+                ctx.count("family:exhaustive-int-and-string-arg");
+            }
+        }
+    };
+    if ctx.quick() {
+        for ix in 0..pool.upto(3) {
+            for ii in 0..pool.ints.len() {
+                for ie in 0..pool.upto(1) {
+                    case(ctx, env, ix, ii, ie);
+                }
+            }
+        }
+        let mut r = ctx.rng("c13-trunc2");
+        for _ in 0..30_000 {
+            let ix = r.below(pool.upto(4));
+            let ii = r.below(pool.ints.len());
+            let ie = r.below(pool.upto(2));
+            case(ctx, env, ix, ii, ie);
+        }
+    } else {
+        for ix in 0..pool.upto(4) {
+            for ii in 0..pool.ints.len() {
+                for ie in 0..pool.upto(2) {
+                    case(ctx, env, ix, ii, ie);
+                }
+            }
+        }
+    }
+}
+
+fn exhaustive_slice(ctx: &mut Ctx, env: &mut Env, pool: &Pool) {
+    let (t1, t2) = (tag(F::Slice, 1), tag(F::Slice, 2));
+    let xs = input_indices(ctx, pool, "c13-slice1", 3000);
+    for &ix in &xs {
+        for io in 0..pool.ints.len() {
+            let h = hc3(t1, pool.h[ix], pool.ih[io], 0);
+            if ctx.mine(h) {
+                cell(ctx, env, F::Slice, &pool.s[ix], &[&pool.ints[io]], h, "exhaustive-int-arg");
+                ctx.count("family:exhaustive-int-arg");
+            }
+        }
+    }
+    let case = |ctx: &mut Ctx, env: &mut Env, ix: usize, io: usize, il: usize| {
+        let h = hc3(t2, pool.h[ix], pool.ih[io], pool.ih[il]);
+        if ctx.mine(h) {
+            cell(ctx, env, F::Slice, &pool.s[ix], &[&pool.ints[io], &pool.ints[il]], h, "exhaustive-two-int-args");
+            ctx.count("family:exhaustive-two-int-args");
+        }
+    };
+    let full = if ctx.quick() { pool.upto(3) } else { pool.upto(4) };
+    for ix in 0..full {
+        for io in 0..pool.ints.len() {
+            for il in 0..pool.ints.len() {
+                case(ctx, env, ix, io, il);
+            }
+        }
+    }
+    if ctx.quick() {
+        let mut r = ctx.rng("c13-slice2");
+        for _ in 0..40_000 {
+            let ix = pool.upto(3) + r.below(pool.upto(4) - pool.upto(3));
+            let io = r.below(pool.ints.len());
+            let il = r.below(pool.ints.len());
+            case(ctx, env, ix, io, il);
+        }
+    }
+}
+
+/// join / first / last / size on arrays (built on the reference side by splitting on ',')
+fn array_inputs(ctx: &mut Ctx, env: &mut Env, pool: &Pool) {
+    let nx = if ctx.quick() { pool.upto(3) } else { pool.upto(4) };
+    let tj = tag(F::Join, 1);
+    let tags0 = [tag(F::First, 0) ^ 1, tag(F::Last, 0) ^ 1, tag(F::Size, 0) ^ 1];
+    for ix in 0..nx {
+        let RVal::Str(x) = &pool.s[ix] else { continue };
+        if !x.contains(',') && ix % 7 != 0 {
+            continue; // single-element arrays are kept only for a seventh of the inputs
+        }
+        let mut parts: Vec<RVal> = ref_split(x, ",").into_iter().map(RVal::Str).collect();
+        if ix % 5 == 0 {
+            parts.push(RVal::Int(ix as i64 - 40)); // integers are joined by their decimal form
+        }
+        if x.is_empty() {
+            parts.clear(); // the empty array
+        }
+        let arr = RVal::Array(parts);
+        for iy in 0..pool.upto(2) {
+            let h = hc3(tj, pool.h[ix], pool.h[iy], 3);
+            if ctx.mine(h) {
+                cell(ctx, env, F::Join, &arr, &[&pool.s[iy]], h, "array-input");
+                ctx.count("family:array-input");
+            }
+        }
+        for (k, f) in [F::First, F::Last, F::Size].iter().enumerate() {
+            let h = hash_combine(tags0[k], pool.h[ix]);
+            if ctx.mine(h) {
+                cell(ctx, env, *f, &arr, &[], h, "array-input");
+                ctx.count("family:array-input");
+            }
+        }
+    }
+}
+
+/// default on inputs that are not strings (strings are covered by the string-argument block)
+fn default_inputs(ctx: &mut Ctx, env: &mut Env, pool: &Pool) {
+    let xs = [
+        RVal::Nil,
+        RVal::Bool(false),
+        RVal::Bool(true),
+        RVal::Int(0),
+        RVal::Int(-3),
+        RVal::Array(vec![]),
+        RVal::Array(vec![rs("")]),
+        rs(" "),
+        rs("false"),
+        rs("nil"),
+    ];
+    let t = tag(F::Default, 1);
+    for (i, x) in xs.iter().enumerate() {
+        for iy in 0..pool.upto(2) {
+            let h = hc3(t, i as u64 + 99, pool.h[iy], 5);
+            if ctx.mine(h) {
+                cell(ctx, env, F::Default, x, &[&pool.s[iy]], h, "default-non-string");
+                ctx.count("family:default-non-string");
+            }
+        }
+        let y = RVal::Int(i as i64);
+        let h = hc3(t, i as u64 + 99, 77, 6);
+        if ctx.mine(h) {
+            cell(ctx, env, F::Default, x, &[&y], h, "default-non-string");
+            ctx.count("family:default-non-string");
+        }
+    }
+}
+
+/// a short argument for a random string: a piece of x (character aligned) or fresh text
+fn rand_arg(r: &mut Rng, x: &str, inside_num: u32) -> String {
+    let c = cv(x);
+    if !c.is_empty() && r.chance(inside_num, 4) {
+        let l = 1 + r.below(3.min(c.len()));
+        let st = r.below(c.len() - l + 1);
+        c[st..st + l].iter().collect()
+    } else {
+        rand_text(r, 4, &[])
+    }
+}
+
+/// one random filter call (filter + arguments) for input text x
+fn rand_call(r: &mut Rng, f: F, x: &str) -> Vec<RVal> {
+    let n = nchars(x) as i64;
+    match f {
+        F::Append | F::Prepend | F::Default => vec![rs(rand_arg(r, x, 0))],
+        F::Remove | F::RemoveFirst | F::Split => vec![rs(rand_arg(r, x, 3))],
+        F::Join => vec![rs(rand_arg(r, x, 1))],
+        F::Replace | F::ReplaceFirst => {
+            if r.chance(1, 3) {
+                vec![rs(rand_arg(r, x, 3))]
+            } else {
+                vec![rs(rand_arg(r, x, 3)), rs(rand_arg(r, x, 0))]
+            }
+        }
+        F::Truncate => {
+            let k = match r.below(4) {
+                0 => r.range(-6, 8),
+                1 => n + r.range(-4, 4),
+                _ => r.range(0, n + 5),
+            };
+            match r.below(4) {
+                0 => vec![],
+                1 | 2 => vec![RVal::Int(k)],
+                _ => vec![RVal::Int(k), rs(if r.chance(1, 4) { String::new() } else { rand_text(r, 4, &[]) })],
+            }
+        }
+        F::TruncateWords => {
+            let k = r.range(-2, 12);
+            if r.chance(1, 2) {
+                vec![RVal::Int(k)]
+            } else {
+                vec![RVal::Int(k), rs(rand_text(r, 4, &[]))]
+            }
+        }
+        F::Slice => {
+            let off = match r.below(4) {
+                0 => r.range(-6, 8),
+                1 => r.range(-n - 3, -1),
+                2 => n + r.range(-4, 3),
+                _ => r.range(0, n + 2),
+            };
+            if r.chance(1, 3) {
+                vec![RVal::Int(off)]
+            } else {
+                vec![RVal::Int(off), RVal::Int(if r.chance(1, 8) { r.range(-2, 0) } else { r.range(1, n + 3) })]
+            }
+        }
+        _ => vec![],
+    }
+}
+
+fn hv(v: &RVal) -> u64 {
+    hash_str(&v.dump())
+}
+
+fn random_strings(ctx: &mut Ctx, env: &mut Env) {
+    let n = ctx.scale(2_000u64, 50_000u64);
+    let rng = ctx.rng("c13-random");
+    let law_strip_tag = hash_str("law-strip");
+    let law_sj_tag = hash_str("law-split-join");
+    ctx.add("random:characters", 0); // make the counter exist in every shard
+    for i in 0..n {
+        let mut r = rng.fork(i);
+        let xs = rand_text(&mut r, 200, &[]);
+        let hx = hash_str(&xs);
+        let x = RVal::Str(xs.clone());
+        for f in ALL_F {
+            if f == F::Join {
+                continue;
+            }
+            // two argument draws for the filters that take arguments
+            let reps = if matches!(f, F::Truncate | F::Slice | F::Replace | F::ReplaceFirst | F::Split | F::TruncateWords) { 2 } else { 1 };
+            for _ in 0..reps {
+                let args = rand_call(&mut r, f, &xs);
+                let refs: Vec<&RVal> = args.iter().collect();
+                let mut h = hash_combine(tag(f, refs.len()), hx);
+                for a in &args {
+                    h = hash_combine(h, hv(a));
+                }
+                if ctx.mine(h) {
+                    cell(ctx, env, f, &x, &refs, h, "random-string");
+                    ctx.count("family:random-string");
+                    ctx.add("random:characters", nchars(&xs) as u64);
+                }
+                if f == F::Split {
+                    if let [sep @ RVal::Str(s)] = &args[..] {
+                        if !s.is_empty() {
+                            let h = hc3(law_sj_tag, hx, hv(sep), 0);
+                            if ctx.mine(h) {
+                                law_split_join(ctx, env, &x, sep, h);
+                                ctx.count("family:random-string");
+                            }
+                            // join of the reference pieces with another separator
+                            let arr = RVal::Array(ref_split(&xs, s).into_iter().map(RVal::Str).collect());
+                            let j = rs(rand_arg(&mut r, &xs, 1));
+                            let h = hc3(tag(F::Join, 1), hx, hv(sep), hv(&j));
+                            if ctx.mine(h) {
+                                cell(ctx, env, F::Join, &arr, &[&j], h, "random-string");
+                                ctx.count("family:random-string");
+                            }
+                        }
+                    }
+                }
+            }
+        }
+        let h = hash_combine(law_strip_tag, hx);
+        if ctx.mine(h) {
+            law_strip(ctx, env, &x, h);
+            ctx.count("family:random-string");
+        }
+    }
+}
+
+// ---------------------------------------------------------------------------------------------
+// chains
+// ---------------------------------------------------------------------------------------------
+
+/// template of a chain over the variables x, a0, b0, a1, b1, ...
+fn chain_src(calls: &[(F, Vec<RVal>)]) -> String {
+    let mut s = String::from("{{ x");
+    for (i, (f, args)) in calls.iter().enumerate() {
+        s.push_str(" | ");
+        s.push_str(f.name());
+        match args.len() {
+            0 => {}
+            1 => s.push_str(&format!(": a{i}")),
+            _ => s.push_str(&format!(": a{i}, b{i}")),
+        }
+    }
+    s.push_str(" | vdump }}");
+    s
+}
+
+fn chain_data(x: &RVal, calls: &[(F, Vec<RVal>)]) -> RVal {
+    let mut kv = vec![("x".to_string(), x.clone())];
+    for (i, (_, args)) in calls.iter().enumerate() {
+        if let Some(a) = args.first() {
+            kv.push((format!("a{i}"), a.clone()));
+        }
+        if let Some(b) = args.get(1) {
+            kv.push((format!("b{i}"), b.clone()));
+        }
+    }
+    RVal::Object(kv)
+}
+
+/// the composition: every step rendered separately, the structural result fed to the next step
+fn stepwise(env: &Env, x: &RVal, calls: &[(F, Vec<RVal>)]) -> Result<String, String> {
+    let mut cur = x.clone();
+    let mut last = format!("ok:{}", x.dump());
+    for (f, args) in calls {
+        let refs: Vec<&RVal> = args.iter().collect();
+        let t = env.template(*f, refs.len()).ok_or_else(|| "step template rejected at parse".to_string())?;
+        let out = render(t, &data(&cur, &refs));
+        match &out {
+            Out::Ok(d) => {
+                cur = parse_dump(d).ok_or_else(|| format!("cannot read back {d}"))?;
+                last = out.summary();
+            }
+            _ => return Ok(out.summary()),
+        }
+    }
+    Ok(last)
+}
+
+fn chains(ctx: &mut Ctx, env: &mut Env, pool: &Pool) {
+    let n = ctx.scale(15_000u64, 300_000u64);
+    let rng = ctx.rng("c13-chains");
+    for i in 0..n {
+        if !ctx.mine_idx(i) {
+            continue;
+        }
+        let mut r = rng.fork(i);
+        let x = if r.chance(1, 2) {
+            pool.s[r.below(pool.s.len())].clone()
+        } else {
+            rs(rand_text(&mut r, 16, &[]))
+        };
+        let RVal::Str(xs) = &x else { continue };
+        let k = 1 + r.below(4);
+        let mut calls: Vec<(F, Vec<RVal>)> = Vec::new();
+        for _ in 0..k {
+            let f = *r.pick(&ALL_F);
+            let mut args = rand_call(&mut r, f, xs);
+            if f == F::Slice || f == F::Truncate || f == F::TruncateWords {
+                // keep integer arguments in the stated range
+                for a in args.iter_mut() {
+                    if let RVal::Int(v) = a {
+                        *v = (*v).clamp(-6, 8);
+                    }
+                }
+            }
+            calls.push((f, args));
+        }
+        let src = chain_src(&calls);
+        let dataj = chain_data(&x, &calls);
+        let h = hash_combine(hash_str(&src), hash_str(&dataj.dump()));
+        ctx.set_progress(&json!({"kind":"chain","template":src,"data":dataj.to_json()}).to_string());
+        let t = match env.parser.parse(&src) {
+            Ok(t) => t,
+            Err(_) => {
+                ctx.count("chain:rejected-at-parse");
+                continue;
+            }
+        };
+        let whole = render(&t, &dataj.to_object());
+        let steps = stepwise(env, &x, &calls);
+        ctx.record(h, !xs.is_empty());
+        ctx.count("law:chain");
+        ctx.count("family:chain");
+        ctx.count(&format!("chain:length-{k}"));
+        for (f, _) in &calls {
+            env.n_filter[f.idx()] += 1;
+        }
+        env.n_out[out_idx(&whole)] += 1;
+        let replay = || {
+            json!({"kind":"chain","template":src,"data":dataj.to_json(),
+                   "steps":calls.iter().map(|(f,a)| json!({"filter":f.name(),"args":a.iter().map(|v| v.to_json()).collect::<Vec<_>>()})).collect::<Vec<_>>(),
+                   "expected":steps.clone().unwrap_or_else(|e| e),"observed":whole.summary()})
+        };
+        match (&whole, &steps) {
+            (Out::Panic(p), _) => ctx.violation(&p.key(), &format!("chain panicked at {}: {}", p.site(), p.msg), replay),
+            (Out::BadUtf8(_), _) => ctx.violation("non-utf8-output", "chain produced output that is not UTF-8", replay),
+            (_, Err(e)) => {
+                if ctx.inconclusive.len() < 5 {
+                    ctx.inconclusive.push(format!("c13 chain: {e}"));
+                }
+            }
+            (w, Ok(s)) => {
+                if w.summary() != *s {
+                    ctx.violation(
+                        "law:chain",
+                        &format!("chain gave {} but the composition of its steps gave {}", show(&w.summary()), show(s)),
+                        replay,
+                    );
+                }
+            }
+        }
+        ctx.sample(|| json!({"family":"chain","template":src,"data":dataj.dump(),"observed":whole.summary().chars().take(100).collect::<String>()}));
+    }
+}
+
+// ---------------------------------------------------------------------------------------------
+// replay
+// ---------------------------------------------------------------------------------------------
+
+fn arg_list(d: &RVal) -> (RVal, Vec<RVal>) {
+    let mut x = RVal::Nil;
+    let mut y = None;
+    let mut z = None;
+    if let RVal::Object(kv) = d {
+        for (k, v) in kv {
+            match k.as_str() {
+                "x" => x = v.clone(),
+                "y" => y = Some(v.clone()),
+                "z" => z = Some(v.clone()),
+                _ => {}
+            }
+        }
+    }
+    let mut a = Vec::new();
+    if let Some(y) = y {
+        a.push(y);
+        if let Some(z) = z {
+            a.push(z);
+        }
+    }
+    (x, a)
+}
+
+pub fn replay(j: &Json) -> bool {
+    let env = Env::new();
+    let kind = j["kind"].as_str().unwrap_or("");
+    let src = j["template"].as_str().unwrap_or("");
+    let d = RVal::from_json(&j["data"]);
+    println!("kind={kind} template={src:?}");
+    println!("data={}", d.dump());
+    let t = match env.parser.parse(src) {
+        Ok(t) => t,
+        Err(e) => {
+            println!("parse error: {e}");
+            return false;
+        }
+    };
+    let globals = if matches!(d, RVal::Object(_)) { d.to_object() } else { Object::new() };
+    let out = render(&t, &globals);
+    println!("observed now : {}", out.summary());
+    println!("recorded     : expected {} observed {}", j["expected"], j["observed"]);
+    match kind {
+        "filter-eval" => {
+            if let Some(f) = j["filter"].as_str().and_then(F::from_name) {
+                let (x, a) = arg_list(&d);
+                let refs: Vec<&RVal> = a.iter().collect();
+                let exp = expect(f, &x, &refs);
+                if exp.exact {
+                    let mut acc: Vec<String> = exp.ok.iter().map(|e| format!("ok:{}", e.dump())).collect();
+                    if exp.err_ok {
+                        acc.push("err".into());
+                    }
+                    println!("reference    : {}", acc.join(" | "));
+                } else {
+                    println!("reference    : (documentation silent for this cell, laws only)");
+                }
+                let v = verdict(f, &x, &refs, &out);
+                for fd in &v.findings {
+                    println!("VIOLATION {}: {}", fd.key, fd.what);
+                }
+                !v.findings.is_empty()
+            } else {
+                // a law rendered through one template (split|join): expected is a list of acceptable outcomes
+                let acc: Vec<String> =
+                    j["expected"].as_array().map(|a| a.iter().filter_map(|v| v.as_str().map(String::from)).collect()).unwrap_or_default();
+                println!("expected     : {}", acc.join(" | "));
+                !acc.contains(&out.summary())
+            }
+        }
+        "law-equal" => {
+            let t2 = match env.parser.parse(j["template2"].as_str().unwrap_or("")) {
+                Ok(t) => t,
+                Err(e) => {
+                    println!("parse error: {e}");
+                    return false;
+                }
+            };
+            let out2 = render(&t2, &globals);
+            println!("template2    : {} -> {}", j["template2"], out2.summary());
+            out.summary() != out2.summary() || matches!(out, Out::Panic(_)) || matches!(out2, Out::Panic(_))
+        }
+        "chain" => {
+            let (x, _) = arg_list(&d);
+            let calls: Vec<(F, Vec<RVal>)> = j["steps"]
+                .as_array()
+                .map(|a| {
+                    a.iter()
+                        .filter_map(|s| {
+                            let f = F::from_name(s["filter"].as_str()?)?;
+                            let args = s["args"].as_array()?.iter().map(RVal::from_json).collect();
+                            Some((f, args))
+                        })
+                        .collect()
+                })
+                .unwrap_or_default();
+            match stepwise(&env, &x, &calls) {
+                Ok(s) => {
+                    println!("composition  : {s}");
+                    s != out.summary() || matches!(out, Out::Panic(_) | Out::BadUtf8(_))
+                }
+                Err(e) => {
+                    println!("composition failed: {e}");
+                    matches!(out, Out::Panic(_) | Out::BadUtf8(_))
+                }
+            }
+        }
+        _ => {
+            println!("unknown replay kind");
+            false
+        }
+    }
+}
+
+#[cfg(test)]
+mod tests {
+    use super::*;
+
+    fn ok(v: RVal) -> Out {
+        Out::Ok(v.dump())
+    }
+    fn keys(v: &Verdict) -> Vec<&str> {
+        v.findings.iter().map(|f| f.key.as_str()).collect()
+    }
+    fn x(s: &str) -> RVal {
+        RVal::Str(s.to_string())
+    }
+
+    /// the oracle accepts documented behaviour (incl. what the repo's unit tests pin) and names the byte defects
+    #[test]
+    fn oracle_self_test() {
+        assert!(keys(&verdict(F::Size, &x("é👍"), &[], &ok(RVal::Int(2)))).is_empty());
+        assert_eq!(keys(&verdict(F::Size, &x("é👍"), &[], &ok(RVal::Int(6)))), ["size:counts-bytes"]);
+        assert_eq!(keys(&verdict(F::Size, &x("ab"), &[], &ok(RVal::Int(3)))), ["size:differs-from-reference"]);
+        // pinned by /repo unit tests
+        let pinned = [
+            ("Here is an a\u{310}, e\u{301}, and o\u{308}\u{332}.", 20, "...", "Here is an a\u{310}, e\u{301}, ..."),
+            ("Here is a RUST: 🇷🇺🇸🇹.", 20, "...", "Here is a RUST: 🇷🇺..."),
+            ("Ground control to Major Tom.", 25, ", and so on", "Ground control, and so on"),
+            ("Ground control to Major Tom.", 20, "", "Ground control to Ma"),
+            ("Ground control to Major Tom.", -17, "...", "Ground control to Major Tom."),
+        ];
+        for (s, n, e, r) in pinned {
+            let v = verdict(F::Truncate, &x(s), &[&RVal::Int(n), &x(e)], &ok(x(r)));
+            assert!(keys(&v).is_empty(), "{s:?} {n} {e:?}: {:?}", keys(&v));
+        }
+        assert_eq!(keys(&verdict(F::Truncate, &x("éé"), &[&RVal::Int(3)], &ok(x("...")))), ["truncate:counts-bytes"]);
+        assert_eq!(keys(&verdict(F::Truncate, &x("abcdef"), &[&RVal::Int(4)], &ok(x("ab...")))), ["truncate:differs-from-reference", "law:truncate-length"]);
+        assert_eq!(keys(&verdict(F::Truncate, &x("abcdef"), &[&RVal::Int(4)], &ok(x("abcdef")))), ["truncate:differs-from-reference", "law:truncate-length"]);
+        assert!(keys(&verdict(F::Slice, &x("aé"), &[&RVal::Int(-1)], &ok(x("é")))).is_empty());
+        assert_eq!(keys(&verdict(F::Slice, &x("aé"), &[&RVal::Int(-1)], &ok(x("")))), ["slice:negative-offset-counts-bytes"]);
+        assert_eq!(keys(&verdict(F::Slice, &x("abc"), &[&RVal::Int(0), &RVal::Int(2)], &ok(x("ac")))), ["slice:differs-from-reference", "law:slice-contiguous"]);
+        assert!(keys(&verdict(F::Slice, &x("abc"), &[&RVal::Int(0), &RVal::Int(0)], &Out::Err("e".into()))).is_empty());
+        assert!(keys(&verdict(F::TruncateWords, &x("one two three"), &[&RVal::Int(2)], &ok(x("one two...")))).is_empty());
+        assert!(keys(&verdict(F::TruncateWords, &x("one two three"), &[&RVal::Int(0)], &ok(x("...")))).is_empty());
+        assert!(keys(&verdict(F::TruncateWords, &x("one two three"), &[&RVal::Int(-1)], &ok(x("one two three")))).is_empty());
+        assert_eq!(keys(&verdict(F::TruncateWords, &x("one two three"), &[&RVal::Int(2)], &ok(x("one...")))), ["truncatewords:differs-from-reference"]);
+        assert!(keys(&verdict(F::Capitalize, &x("ßß"), &[], &ok(x("SSß")))).is_empty());
+        assert_eq!(keys(&verdict(F::Capitalize, &x("aB"), &[], &ok(x("Ab")))), ["capitalize:differs-from-reference"]);
+        assert!(keys(&verdict(F::Strip, &x("\u{2003} a \n"), &[], &ok(x("a")))).is_empty());
+        let arr = RVal::Array(vec![x("a"), x(""), x("")]);
+        assert!(keys(&verdict(F::Split, &x("a,,"), &[&x(",")], &ok(arr))).is_empty());
+        assert_eq!(keys(&verdict(F::Split, &x("a,,"), &[&x(",")], &ok(RVal::Array(vec![x("a")])))), ["split:differs-from-reference", "law:split-pieces"]);
+        assert!(keys(&verdict(F::NewlineToBr, &x("a\nb"), &[], &ok(x("a<br />\nb")))).is_empty());
+        assert_eq!(keys(&verdict(F::NewlineToBr, &x("a\nb"), &[], &ok(x("a\nb")))), ["newline_to_br:differs-from-reference"]);
+        assert!(keys(&verdict(F::Replace, &x("aaa"), &[&x("aa"), &x("b")], &ok(x("ba")))).is_empty());
+        assert!(keys(&verdict(F::Default, &x(""), &[&x("d")], &ok(x("d")))).is_empty());
+        assert_eq!(keys(&verdict(F::Default, &x(" "), &[&x("d")], &ok(x("d")))), ["default:differs-from-reference"]);
+    }
+
+    #[test]
+    fn dump_round_trip() {
+        let v = RVal::Array(vec![RVal::Nil, RVal::Bool(true), RVal::Int(-3), RVal::Float(2.5), x("a\"\\\n,]é👍"), RVal::Array(vec![])]);
+        assert_eq!(parse_dump(&v.dump()).unwrap().dump(), v.dump());
+        assert!(parse_dump("s:\"a\"x").is_none());
+    }
+
+    #[test]
+    fn clusters() {
+        let n = |s: &str| cluster_offsets(s).unwrap().len() - 1;
+        assert_eq!(n("Here is a RUST: 🇷🇺🇸🇹."), 19);
+        assert_eq!(n("e\u{301}\r\n\u{301}👨\u{200d}👩\u{200d}👧"), 4);
+        assert!(cluster_offsets("\u{1100}").is_none());
+    }
 }
